@@ -124,7 +124,13 @@ fn tname(t: u8) -> &'static str {
 /// classes of the mutating calls in `log`, judged against the store content `pre` before the op
 /// and `post` after it: W:<type>:new | W:<type>:same (existing name, identical bytes) |
 /// W:<type>:over (existing name, bytes replaced) | R:<type>
+/// `auth`: for the hot part of a hot/cold repository the content of the cold part after the op.
+/// Replacing an incomplete hot copy by exactly the bytes of the cold file is class `resync`
+/// (the hot/cold repair recreating the hot store), not `over`: no stored content is replaced.
 fn classify(part: &str, log: &[Op], pre: &BTreeMap<(u8, Id), Bytes>, post: &BTreeMap<(u8, Id), Bytes>, out: &mut BTreeMap<String, usize>) {
+    classify_auth(part, log, pre, post, None, out);
+}
+fn classify_auth(part: &str, log: &[Op], pre: &BTreeMap<(u8, Id), Bytes>, post: &BTreeMap<(u8, Id), Bytes>, auth: Option<&BTreeMap<(u8, Id), Bytes>>, out: &mut BTreeMap<String, usize>) {
     let mut live: BTreeSet<(u8, Id)> = pre.keys().copied().collect();
     for op in log {
         let k = key_of(op.tpe, &op.id);
@@ -134,6 +140,7 @@ fn classify(part: &str, log: &[Op], pre: &BTreeMap<(u8, Id), Bytes>, post: &BTre
                     // bytes replaced?  (a later remove hides the final content: count as over)
                     match (pre.get(&k), post.get(&k)) {
                         (Some(a), Some(b)) if a == b => "same",
+                        (Some(_), Some(b)) if auth.is_some_and(|m| m.get(&k) == Some(b)) => "resync",
                         _ => "over",
                     }
                 } else {
@@ -518,7 +525,7 @@ fn seq_case(line: &str) -> String {
         let part = if hotcold { "cold." } else { "" };
         classify(part, &w.rec_cold.take_log(), &pre_c, &post_c, &mut cls);
         if let (Some(h), Some(rh), Some(pre_h)) = (&w.hot, &w.rec_hot, &pre_h) {
-            classify("hot.", &rh.take_log(), pre_h, &h.snapshot(), &mut cls);
+            classify_auth("hot.", &rh.take_log(), pre_h, &h.snapshot(), Some(&post_c), &mut cls);
         }
         // files of the protected classes that vanished or changed (independent of the log)
         let mut lost = 0usize;
@@ -529,7 +536,8 @@ fn seq_case(line: &str) -> String {
             if let (Some(h), Some(pre_h)) = (&w.hot, &pre_h) {
                 let post_h = h.snapshot();
                 for (k, v) in pre_h {
-                    if matches!(k.0, 1 | 3 | 4) && post_h.get(k) != Some(v) { lost += 1; }
+                    // a hot copy that now equals the cold file was re-synchronised, not lost
+                    if matches!(k.0, 1 | 3 | 4) && post_h.get(k) != Some(v) && !(post_h.get(k).is_some() && post_h.get(k) == post_c.get(k)) { lost += 1; }
                 }
             }
         }
